@@ -44,8 +44,8 @@ ASSUMPTIONS = [
 ]
 REAL_STUB = {"real": ["Node.shard / set_pipeline_stage / sharding_of", "Model.add/remove_device_configuration", "_multi_device check", "serde multi-device fields", "_cloner remapping"], "stub": [], "harness_extension_points": []}
 
-OPS = ["add_cfg", "remove_cfg", "shard", "shard_invalid", "stage", "stage_invalid", "rename_value", "rename_node", "replace_input", "resize_inputs", "resize_outputs", "clone", "reload", "add_node", "remove_cfg_name"]
-WEIGHTS = [4, 3, 16, 8, 5, 2, 6, 3, 8, 3, 4, 3, 4, 2, 2]
+OPS = ["add_cfg", "remove_cfg", "shard", "shard_invalid", "stage", "stage_invalid", "rename_value", "rename_node", "replace_input", "resize_inputs", "resize_outputs", "clone", "reload", "add_node", "remove_cfg_name", "shadow_rename"]
+WEIGHTS = [4, 3, 16, 8, 5, 2, 6, 3, 8, 3, 4, 3, 4, 2, 2, 4]
 
 
 def gen_case(run_seed: int, tier: str, index: int = 0) -> dict:
@@ -266,6 +266,44 @@ def run_case(case: dict) -> dict:
                     continue
                 vals[b % len(vals)].name = fname("rv")
                 nontrivial = nontrivial or _annotations(model) >= 3
+            elif op == "shadow_rename":
+                # a value defined inside a control-flow body takes the name of a value of an enclosing scope
+                # (legal: inner names shadow outer ones); references are by identity, so nothing else changes
+                owners = [x for x in nodes if any((not a_.is_ref()) and a_.type == ir.AttributeType.GRAPH for a_ in x.attributes.values())]
+                if not owners:
+                    continue
+                owner = owners[a % len(owners)]
+                subs = [a_.value for a_ in owner.attributes.values() if (not a_.is_ref()) and a_.type == ir.AttributeType.GRAPH and a_.value is not None]
+                sg = subs[b % len(subs)]
+                # prefer values of annotated nodes: that is where a by-name reference can go wrong
+                inner_vals = [o for x in sg for o in x.outputs if o.name and x.device_configurations] or [o for x in sg for o in x.outputs if o.name]
+                og = owner.graph
+                if not inner_vals or og is None:
+                    continue
+                used_inside = {id(i_) for x in sg.all_nodes() for i_ in x.inputs if i_ is not None}
+                defined_inside = {id(o) for x in sg.all_nodes() for o in x.outputs} | {id(i_) for i_ in sg.inputs} | {id(i_) for i_ in sg.initializers.values()}
+                outer = list(og.inputs) + (list(og.initializers.values()) if hasattr(og, "initializers") else [])
+                for x in og:
+                    if x is owner:
+                        break
+                    outer.extend(x.outputs)
+                # the serialized form refers to values by name: only an outer value that the body does not use can be shadowed
+                inner_names = {o.name for x in sg.all_nodes() for o in x.outputs} | {i_.name for i_ in sg.inputs} | set(sg.initializers)
+                outer = [o for o in outer if o.name and id(o) not in used_inside and id(o) not in defined_inside and not o.is_initializer() and o.name not in inner_names]
+                if not outer:
+                    continue
+                v = inner_vals[c % len(inner_vals)]
+                n2 = v.producer()
+                v.name = outer[(c >> 4) % len(outer)].name
+                inc("shadow_rename")
+                if n2.device_configurations:
+                    inc("reach_shadow_rename_on_annotated_node")
+                if c % 2:
+                    had = _annotations(model)
+                    model = ir.from_proto(ir.to_proto(model))
+                    inc("reload")
+                    if _annotations(model) != had:
+                        viol = ("reload-lost-annotations", f"after a proto round trip the model carries {_annotations(model)} annotations, before {had}")
             elif op == "rename_node":
                 if node is None:
                     continue
@@ -352,7 +390,7 @@ def run_case(case: dict) -> dict:
             viol = check_invariants(model)
             if viol is not None:
                 viol = (viol[0], f"after op {i} {op} ({outcome}): {viol[1]}")
-        if viol is None and (op in ("reload", "clone", "rename_value", "remove_cfg", "remove_cfg_name") or i % 5 == 4):
+        if viol is None and (op in ("reload", "clone", "rename_value", "shadow_rename", "remove_cfg", "remove_cfg_name") or i % 5 == 4):
             viol = check_serialized(model)
             if viol is not None:
                 viol = (viol[0], f"after op {i} {op}: {viol[1]}")
